@@ -889,3 +889,32 @@ def _merge_tpl(tpl):
         elif not (k == 'lit' and x == ''):
             out.append((k, x))
     return out
+
+
+@rule('R71', 'the codec hands indent and compact to the formatter exactly as it received them')
+def r71(ctx: Ctx) -> RuleReport:
+    rep = RuleReport('R71', r71.title, floor=4)
+    from ..cfg import assigned_names
+    for fi in ctx.repo.module('penman.codec').all_funcs:
+        opts = [p for p in ('indent', 'compact') if p in fi.params]
+        if not opts:
+            continue
+        for o in opts:
+            rebinds = [n for n in walk_local(fi.node) if isinstance(n, (ast.Assign, ast.AugAssign, ast.AnnAssign)) and o in assigned_names(n)]
+            key = f'{fi.module.name}:{fi.qualname}: {o} reaches the formatter unchanged'
+            if rebinds:
+                rep.violation(key, fi.loc(rebinds[0]), f'`{norm(rebinds[0])[:70]}` rewrites the option before it reaches the formatter: the text written then differs from '
+                              f'what penman.format(tree, {o}=...) returns for the same value (note that 1 == True and 0 == False, so a test against '
+                              f'booleans also catches the widths 1 and 0)')
+                continue
+            passed = []
+            for c in [n for n in walk_local(fi.node) if isinstance(n, ast.Call)]:
+                for k in c.keywords:
+                    if k.arg == o:
+                        passed.append((c, k.value))
+            bad = [(c, v) for c, v in passed if norm(v) != o]
+            if bad:
+                rep.violation(key, fi.loc(bad[0][0]), f'{norm(bad[0][0])[:60]} passes {o}={norm(bad[0][1])[:30]} instead of the value it received')
+            else:
+                rep.add(key, fi.loc(), 'ok' if passed or fi.qualname == '_dump_stream' else 'info', f'{len(passed)} call(s) pass it on')
+    return rep
